@@ -59,43 +59,109 @@ theorem coord_is_true_token_position (text : List Char) (file : String)
 
 /-! ## declared names: the coordinate is that of the token that spells the name -/
 
+open PycModel.DeclSkel in
+/-- position of the `ID` token that spells the declared name inside the tokens of a declarator -/
+def namePos : D → Nat
+  | .name _ => 0
+  | .paren d => 1 + namePos d
+  | .ptr stars d => starsNtoks stars + namePos d
+  | .arr d _ => namePos d
+  | .fn0 d => namePos d
+
 open PycModel.View PycModel.FullExpr PycModel.DeclSkel PycModel.DeclParse PycModel.BuildDecl in
 /-- **The `TypeDecl` of a declared name carries the index of exactly the `ID` token that spells
 it.**  For every named declarator (pointers with qualifiers in front, array / function suffixes
-behind, any length) whose first token is token number `n` of the input: the coordinate the parser
-gives the name-carrying `TypeDecl` (`dTco`, the value `DeclParse.parse_declaration` returns) is
-the pseudo-coordinate `tc k` of token `k = n + (number of pointer / qualifier tokens)`, and token
-`k` of the input is `("ID", name)`.  With `coord_is_true_token_position` (a coordinate carrying a
-token's index resolves to that token's true file / line / column) this is the "exactly the token
-that spells them" clause of the property for declared names. -/
-theorem declared_name_coordinate_is_its_token {d : D} (hwf : WFD d) (hn : NoParen d) (n : Nat) :
-    dTco n d = tc (n + starsNtoks (dStars d)) ∧ d.flat[starsNtoks (dStars d)]? = some ("ID", dName d) := by
-  refine ⟨?_, ?_⟩
-  · induction hwf generalizing n with
-    | name x => simp [dTco, dStars, starsNtoks]
-    | paren d _ _ => exact absurd hn (by simp [NoParen])
-    | ptr stars d _ _ _ _ ih =>
-      simp only [dTco, dStars, starsNtoks_append]
-      rw [ih hn]; congr 1; omega
-    | arr d dim _ _ _ ih => simpa [dTco, dStars] using ih hn n
-    | fn0 d _ _ ih => simpa [dTco, dStars] using ih hn n
-  · rw [flat_noParen hwf hn, List.getElem?_append_right (by simp [starsFlat_length])]
-    simp [starsFlat_length]
+behind, grouping parentheses, any length and depth) whose first token is token number `n` of the
+input: the coordinate the parser gives the name-carrying `TypeDecl` (`dTco`, the value
+`DeclParse.parse_declaration` returns) is the pseudo-coordinate `tc k` of token `k = n + namePos d`,
+and token `namePos d` of the declarator is `("ID", name)`.  With `coord_is_true_token_position` (a
+coordinate carrying a token's index resolves to that token's true file / line / column) this is
+the "exactly the token that spells them" clause of the property for declared names. -/
+theorem declared_name_coordinate_is_its_token : ∀ (d : D) (n : Nat),
+    dTco n d = tc (n + namePos d) ∧ d.flat[namePos d]? = some ("ID", dName d)
+  | .name x, n => by simp [dTco, namePos, D.flat, dName]
+  | .paren d, n => by
+    obtain ⟨h1, h2⟩ := declared_name_coordinate_is_its_token d (n + 1)
+    refine ⟨by simp only [dTco, namePos, h1]; congr 1; omega, ?_⟩
+    have hlt : namePos d < d.flat.length := by
+      rcases Nat.lt_or_ge (namePos d) d.flat.length with h | h
+      · exact h
+      · rw [List.getElem?_eq_none h] at h2; cases h2
+    simp only [D.flat, namePos, dName]
+    rw [show 1 + namePos d = namePos d + 1 by omega, List.getElem?_cons_succ, List.getElem?_append_left hlt]
+    exact h2
+  | .ptr stars d, n => by
+    obtain ⟨h1, h2⟩ := declared_name_coordinate_is_its_token d (n + starsNtoks stars)
+    refine ⟨by simp only [dTco, namePos, h1]; congr 1; omega, ?_⟩
+    simp only [D.flat, namePos, dName]
+    rw [List.getElem?_append_right (by simp [starsFlat_length])]
+    simpa [starsFlat_length] using h2
+  | .arr d dim, n => by
+    obtain ⟨h1, h2⟩ := declared_name_coordinate_is_its_token d n
+    refine ⟨by simp only [dTco, namePos, h1], ?_⟩
+    have hlt : namePos d < d.flat.length := by
+      rcases Nat.lt_or_ge (namePos d) d.flat.length with h | h
+      · exact h
+      · rw [List.getElem?_eq_none h] at h2; cases h2
+    simp only [D.flat, namePos, dName]
+    rw [List.getElem?_append_left hlt]; exact h2
+  | .fn0 d, n => by
+    obtain ⟨h1, h2⟩ := declared_name_coordinate_is_its_token d n
+    refine ⟨by simp only [dTco, namePos, h1], ?_⟩
+    have hlt : namePos d < d.flat.length := by
+      rcases Nat.lt_or_ge (namePos d) d.flat.length with h | h
+      · exact h
+      · rw [List.getElem?_eq_none h] at h2; cases h2
+    simp only [D.flat, namePos, dName]
+    rw [List.getElem?_append_left hlt]; exact h2
 
 open PycModel.View PycModel.FullExpr PycModel.DeclSkel PycModel.DeclParse PycModel.BuildDecl PycModel.TypeModify in
 /-- the `Decl` built for an init-declarator carries, at the end of its type chain, a `TypeDecl` whose
 name and coordinate are those of the declarator's `ID` token -/
-theorem decl_typedecl_names_its_token (sp : DeclSpec) (ico : Option Coord) (names : List String) (it : IDc) (hwf : WFI it) (hn : NoParen it.d) (n : Nat) :
+theorem decl_typedecl_names_its_token (sp : DeclSpec) (ico : Option Coord) (names : List String) (it : IDc) (n : Nat) :
     ∃ ty, declOut sp ico names (it.di n) =
         mk .Decl (it.di n).coord [.str (dName it.d), .list sp.qual, .list sp.alignment, .list sp.storage, .list sp.function,
-          chainVal (it.d.chain n) (mk .TypeDecl (tc (n + starsNtoks (dStars it.d))) [.str (dName it.d), .list sp.qual, .none, ty]),
+          chainVal (it.d.chain n) (mk .TypeDecl (tc (n + namePos it.d)) [.str (dName it.d), .list sp.qual, .none, ty]),
           (it.di n).init, .none] ∧
-      it.d.flat[starsNtoks (dStars it.d)]? = some ("ID", dName it.d) := by
-  obtain ⟨h1, h2⟩ := declared_name_coordinate_is_its_token hwf.wfd hn n
+      it.d.flat[namePos it.d]? = some ("ID", dName it.d) := by
+  obtain ⟨h1, h2⟩ := declared_name_coordinate_is_its_token it.d n
   refine ⟨identType ico names, ?_, h2⟩
-  have hdi : (it.di n).tco = tc (n + starsNtoks (dStars it.d)) := h1
+  have hdi : (it.di n).tco = tc (n + namePos it.d) := h1
   show declPost _ _ _ _ _ _ (chainVal (it.di n).ms (tdFull (it.di n).x (it.di n).tco sp.qual (identType ico names))) _ = _
   rw [hdi]
   rfl
+
+open PycModel.View PycModel.OperandId in
+/-- **`_here()`**: while a token is left, an error raised "here" is located at exactly that token
+(its index; `coord_is_true_token_position` turns the index into the token's true line and column) -/
+theorem here_is_next_token {env : Env} (s : PState) (k v : String) (toks : List Tk) (h : SeesT env s ((k, v) :: toks)) :
+    ∃ s', hereLoc s = .ok (.coord ⟨"", s.idx, some (s.idx + 1)⟩) s' ∧ SeesT env s' ((k, v) :: toks) := by
+  obtain ⟨s', hp, hs', _, _, _⟩ := peek_spec s k v toks h
+  exact ⟨s', by simp [hereLoc, StmtSkel.bnd, hp, tokCoord, StmtSkel.pur], hs'⟩
+
+open PycModel.View PycModel.OperandId in
+/-- **A missing operand is reported at the token that stands in its place.**  From every state
+that sees a token which cannot start a primary expression (anything but an identifier, a constant,
+a string literal, `(` and `offsetof`: `;`, `)`, an operator, a keyword ...), `_parse_primary_expression`
+raises `Invalid expression` located at that token - never with a file name only. -/
+theorem invalid_expression_is_located {env : Env} (s : PState) (k v : String) (toks : List Tk)
+    (h : SeesT env s ((k, v) :: toks)) (F : Nat)
+    (hk : k ≠ "ID" ∧ k ∉ intConst ∧ k ∉ floatConst ∧ k ∉ charConst ∧ k ∉ stringLiteral ∧ k ∉ wstrLiteral ∧ k ≠ "LPAREN" ∧
+      k ≠ "OFFSETOF") :
+    run (F + 1) .primaryExpression s = .err (.parse (.coord ⟨"", s.idx, some (s.idx + 1)⟩) "Invalid expression") := by
+  obtain ⟨hid, hi, hf, hc, hs, hw, hl, ho⟩ := hk
+  obtain ⟨s1, h1, hs1, hi1, _⟩ := peekType_spec s _ h
+  obtain ⟨s2, h2, _⟩ := here_is_next_token s1 k v toks hs1
+  rw [hi1] at h2
+  show pPrimaryExpression (run F) s = _
+  simp [pPrimaryExpression, StmtSkel.bnd, h1, hid, DeclSkel.not_mem_inSet hi, DeclSkel.not_mem_inSet hf, DeclSkel.not_mem_inSet hc,
+    DeclSkel.not_mem_inSet hs, DeclSkel.not_mem_inSet hw, hl, ho, h2, parseError, P.fail]
+
+open PycModel.View in
+/-- non-vacuity: `;` where an operand is expected (`x = ;`) -/
+example : ∃ env s, SeesT env s [("SEMI", ";")] ∧
+    run 5 .primaryExpression s = .err (.parse (.coord ⟨"", 0, some 1⟩) "Invalid expression") := by
+  have hs := ParenExpr.seesT_init [("SEMI", ";")]
+  exact ⟨_, _, hs, invalid_expression_is_located _ "SEMI" ";" [] hs 4 (by decide)⟩
 
 end PycModel.C11
